@@ -11,7 +11,7 @@ RULE = ("random scenarios with an ACL installed (random user x target tables ove
 
 
 def run(tier):
-    runs = [("acl", 3000)] if tier == "quick" else [("acl", 120000)]
+    runs = [("acl", 3000), ("idle", 64)] if tier == "quick" else [("acl", 120000), ("idle", 1280)]
     return fam.run_family(PID, tier, runs, MODELS, RULE, [], shards=16 if tier == "quick" else 48)
 
 
